@@ -52,6 +52,13 @@
             // a chain that needs several rounds
             vec![cons(x.clone(), le, bin(BinOp::Sub, y.clone(), num(1.0))), cons(y.clone(), le, bin(BinOp::Sub, k.clone(), num(1.0))), cons(k.clone(), le, num(2.0)), cons(x.clone(), ge, bin(BinOp::Sub, y.clone(), num(3.0)))],
             vec![cons(bin(BinOp::Div, bin(BinOp::Sub, x.clone(), y.clone()), num(-2.0)), ge, num(1.0)), cons(Exp::UnOp(UnOp::Neg, Box::new(x.clone())), le, num(1.5))],
+            // affine forms with constant terms under scaling / division / negation, variables on both sides, cancelling coefficients
+            vec![cons(bin(BinOp::Div, bin(BinOp::Add, x.clone(), num(4.0)), num(2.0)), le, num(5.0)), cons(y.clone(), ge, bin(BinOp::Sub, x.clone(), num(1.0)))],
+            vec![cons(bin(BinOp::Div, bin(BinOp::Add, k.clone(), num(3.0)), num(2.0)), eq, num(2.0)), cons(x.clone(), le, bin(BinOp::Add, k.clone(), num(0.5)))],
+            vec![cons(bin(BinOp::Sub, bin(BinOp::Mul, num(2.0), bin(BinOp::Add, x.clone(), num(1.0))), x.clone()), le, bin(BinOp::Add, bin(BinOp::Mul, num(3.0), bin(BinOp::Sub, y.clone(), num(1.0))), num(4.0)))],
+            vec![cons(bin(BinOp::Add, Exp::UnOp(UnOp::Neg, Box::new(bin(BinOp::Sub, x.clone(), num(2.0)))), num(1.0)), ge, bin(BinOp::Div, bin(BinOp::Sub, num(3.0), y.clone()), num(2.0))), cons(y.clone(), le, num(1.0))],
+            vec![cons(bin(BinOp::Sub, bin(BinOp::Add, x.clone(), y.clone()), bin(BinOp::Sub, x.clone(), num(1.0))), le, num(3.0)), cons(x.clone(), ge, bin(BinOp::Mul, bin(BinOp::Add, y.clone(), num(1.0)), num(-0.5)))],
+            vec![cons(bin(BinOp::Sub, num(3.0), x.clone()), le, bin(BinOp::Mul, bin(BinOp::Add, y.clone(), num(1.0)), num(2.0))), cons(bin(BinOp::Div, bin(BinOp::Sub, num(6.0), k.clone()), num(-3.0)), le, x.clone())],
         ]
     }
     #[test]
